@@ -134,6 +134,7 @@ def gen(rng: random.Random, k: int, tier: str) -> dict:
             "create": 3.0 if len(live) < (10 if deep else 6) else 0.0,
             "switch": 4.0,
             "eval": 5.0 if live else 0.0,
+            "evalmany": 1.5 if len(live) > 1 else 0.0,
             "infer": 1.5 * cfg["infer_w"] if nmodels else 0.0,
             "drop": 1.5 if live else 0.0,
             "gc": 0.6,
@@ -178,6 +179,15 @@ def gen(rng: random.Random, k: int, tier: str) -> dict:
                             "stitch": rng.random() < 0.3})
                 ops.append({"op": "eval", "id": oid, "pt": rng.randrange(1 << 30)})
                 budget -= 4.5 * COST[cur[0]] * (3 if cur[0] == "jax" else 1)
+        elif kind == "evalmany":
+            ids = [i for i in sorted(live) if not live[i].startswith("sub_")]
+            if len(ids) < 2:
+                continue
+            oid = rng.choice(ids)
+            same = [i for i in ids if live[i] == live[oid]]
+            pick = rng.sample(same, min(len(same), rng.randint(2, 3))) if len(same) > 1 else rng.sample(ids, 2)
+            ops.append({"op": "evalmany", "evals": [{"id": i, "pt": rng.randrange(1 << 30)} for i in pick]})
+            budget -= sum((1.5 if live[i] == "model" else 0.2) for i in pick) * COST[cur[0]]
         elif kind == "eval":
             oid = rng.choice(sorted(live))
             if live[oid].startswith("sub_"):
@@ -268,6 +278,9 @@ def simplify(op):
                 n += 1
                 if n >= 24:
                     break
+    elif op["op"] == "evalmany" and len(op["evals"]) > 1:
+        for i in range(len(op["evals"])):
+            yield dict(op, evals=op["evals"][:i] + op["evals"][i + 1:])
     elif op["op"] == "storm" and op["n"] > 1:
         yield dict(op, n=1, keep=0)
 
@@ -618,31 +631,16 @@ class World:
         data = np.asarray(main + aux, dtype=np.float64)
         return pars, data
 
-    def op_eval(self, op):
-        o = self.objs.get(op["id"])
-        if o is None or o["kind"].startswith("sub_"):
-            return "noop"
+    def _prep(self, o, pt):
+        """The observables of one object at one seeded point, as (name, function of the object) pairs.  Nothing is
+        evaluated and nothing is built here."""
         kind, a, obj = o["kind"], o["args"], o["obj"]
-        ctx = self.ctx
-        try:
-            twin = self._twin(op["id"])
-        except core.HarnessError:
-            raise
-        except Exception as e:
-            raise core.HarnessError(f"twin of {kind} cannot be built under {self.reg}: {type(e).__name__}: {e}")
-        if o["lived"]:
-            ctx.probe("eval_after_real_change")
-            if any(p != o["born"][1] for _, p in o["lived"]):
-                ctx.probe("eval_after_precision_change")
-            if len(o["lived"]) >= 2:
-                ctx.probe("eval_after_2plus_changes")
-            ctx.mark_nontrivial([kind, o["born"], o["lived"][-5:], self.reg[2], "eval"])
-        out = []
+        tl = self.pyhf.tensorlib
+        prep = {"kind": kind, "obsv": [], "lp": None}
         if kind == "model":
             nmain = obj.config.nmaindata
-            pars, data = self._model_point(twin, a, op["pt"])
+            pars, data = self._model_point(obj, a, pt)
             dmain, daux = data[:nmain], data[nmain:]
-            tl = self.pyhf.tensorlib
             T = tl.astensor
             obsv = [
                 ("expected_data", lambda m: m.expected_data(pars)),
@@ -656,7 +654,54 @@ class World:
             if len(daux):
                 obsv += [("expected_auxdata", lambda m: m.expected_auxdata(pars)),
                          ("constraint_logpdf", lambda m: m.constraint_logpdf(T(daux), T(pars)))]
+            prep["obsv"] = obsv
+            prep["lp"] = (pars, data)
+        elif kind == "interp":
+            r = random.Random(pt)
+            ns = len(a["hist"])
+            na = r.choice([1, 1, 2, 3, 5])
+            al = np.asarray([[r.choice([0.0, 1.0, -1.0, r.uniform(-1, 1), r.uniform(-3, 3)]) for _ in range(na)]
+                             for _ in range(ns)], dtype=np.float64)
+            prep["obsv"] = [(f"call_code{a['code']}", lambda m: m(tl.astensor(al)))]
+        elif kind == "tv":
+            r = random.Random(pt)
+            n = sum(len(p) for p in a["indices"])
+            vec = np.asarray([round(r.uniform(-9, 9), 3) for _ in range(n)], dtype=np.float64)
+            sel = [nm for nm in a["names"] if r.random() < 0.5] or a["names"][:1]
+            prep["obsv"] = [("split", lambda m: m.split(tl.astensor(vec))),
+                            ("split_sel", lambda m: m.split(tl.astensor(vec), selection=sel)),
+                            ("stitch", lambda m: m.stitch(m.split(tl.astensor(vec))))]
+        elif kind == "pv":
+            r = random.Random(pt)
+            n = sum(a["sizes"])
+            shape = (n,) if a["batch"] is None else (a["batch"], n)
+            vec = np.asarray([round(r.uniform(-9, 9), 3) for _ in range(int(np.prod(shape)))], dtype=np.float64).reshape(shape)
+            prep["obsv"] = [("get", lambda m: m.get(tl.astensor(vec))),
+                            ("index_selection", lambda m: m.index_selection),
+                            ("indices_concatenated", lambda m: m.indices_concatenated)]
+        return prep
+
+    def _judge(self, oid, o, prep, old):
+        """Compare what the old object returned with a twin built fresh under the current backend."""
+        kind, a = o["kind"], o["args"]
+        ctx, tl = self.ctx, self.pyhf.tensorlib
+        try:
+            twin = self._twin(oid)
+        except core.HarnessError:
+            raise
+        except Exception as e:
+            raise core.HarnessError(f"twin of {kind} cannot be built under {self.reg}: {type(e).__name__}: {e}")
+        if o["lived"]:
+            ctx.probe("eval_after_real_change")
+            if any(p != o["born"][1] for _, p in o["lived"]):
+                ctx.probe("eval_after_precision_change")
+            if len(o["lived"]) >= 2:
+                ctx.probe("eval_after_2plus_changes")
+            ctx.mark_nontrivial([kind, o["born"], o["lived"][-5:], self.reg[2], "eval"])
+        lp_scale = None
+        if prep["lp"] is not None:
             # magnitude of the summands of the log-densities at this point (for the cancellation-aware tolerance)
+            pars, data = prep["lp"]
             try:
                 from scipy.special import gammaln
 
@@ -665,43 +710,33 @@ class World:
                 lp_scale = float(np.sum(dd * (1 + np.abs(np.log(np.maximum(lam, 1e-30)))) + lam + gammaln(dd + 1) + 10.0))
             except Exception:
                 lp_scale = None
-            for name, fn in obsv:
-                out.append(self._cmp(kind, name, self._observe(lambda: fn(obj)), self._observe(lambda: fn(twin)),
-                                     scale=lp_scale if "logpdf" in name else None))
-        elif kind == "interp":
-            r = random.Random(op["pt"])
-            ns = len(a["hist"])
-            na = r.choice([1, 1, 2, 3, 5])
-            al = np.asarray([[r.choice([0.0, 1.0, -1.0, r.uniform(-1, 1), r.uniform(-3, 3)]) for _ in range(na)]
-                             for _ in range(ns)], dtype=np.float64)
-            tl = self.pyhf.tensorlib
-            out.append(self._cmp(kind, f"call_code{a['code']}", self._observe(lambda: obj(tl.astensor(al))),
-                                 self._observe(lambda: twin(tl.astensor(al)))))
-        elif kind == "tv":
-            r = random.Random(op["pt"])
-            n = sum(len(p) for p in a["indices"])
-            tl = self.pyhf.tensorlib
-            vec = np.asarray([round(r.uniform(-9, 9), 3) for _ in range(n)], dtype=np.float64)
-            sel = [nm for nm in a["names"] if r.random() < 0.5] or a["names"][:1]
-            out.append(self._cmp(kind, "split", self._observe(lambda: obj.split(tl.astensor(vec))),
-                                 self._observe(lambda: twin.split(tl.astensor(vec)))))
-            out.append(self._cmp(kind, "split_sel", self._observe(lambda: obj.split(tl.astensor(vec), selection=sel)),
-                                 self._observe(lambda: twin.split(tl.astensor(vec), selection=sel))))
-            out.append(self._cmp(kind, "stitch", self._observe(lambda: obj.stitch(obj.split(tl.astensor(vec)))),
-                                 self._observe(lambda: twin.stitch(twin.split(tl.astensor(vec))))))
-        elif kind == "pv":
-            r = random.Random(op["pt"])
-            n = sum(a["sizes"])
-            tl = self.pyhf.tensorlib
-            shape = (n,) if a["batch"] is None else (a["batch"], n)
-            vec = np.asarray([round(r.uniform(-9, 9), 3) for _ in range(int(np.prod(shape)))], dtype=np.float64).reshape(shape)
-            out.append(self._cmp(kind, "get", self._observe(lambda: obj.get(tl.astensor(vec))),
-                                 self._observe(lambda: twin.get(tl.astensor(vec)))))
-            out.append(self._cmp(kind, "index_selection", self._observe(lambda: obj.index_selection),
-                                 self._observe(lambda: twin.index_selection)))
-            out.append(self._cmp(kind, "indices_concatenated", self._observe(lambda: obj.indices_concatenated),
-                                 self._observe(lambda: twin.indices_concatenated)))
+        out = []
+        for (name, fn), ro in zip(prep["obsv"], old):
+            out.append(self._cmp(kind, name, ro, self._observe(lambda: fn(twin)), scale=lp_scale if "logpdf" in name else None))
         return out
+
+    def op_eval(self, op):
+        o = self.objs.get(op["id"])
+        if o is None or o["kind"].startswith("sub_"):
+            return "noop"
+        prep = self._prep(o, op["pt"])
+        old = [self._observe(lambda: fn(o["obj"])) for _, fn in prep["obsv"]]
+        return self._judge(op["id"], o, prep, old)
+
+    def op_evalmany(self, op):
+        """Several live objects are evaluated back to back BEFORE any twin is built: building a twin is itself an
+        operation on process-global state (it subscribes callbacks, may touch caches shared between instances) and
+        could repair - or disturb - exactly what is being judged."""
+        pend = []
+        for e in op["evals"]:
+            o = self.objs.get(e["id"])
+            if o is None or o["kind"].startswith("sub_"):
+                continue
+            prep = self._prep(o, e["pt"])
+            pend.append((e["id"], o, prep, [self._observe(lambda: fn(o["obj"])) for _, fn in prep["obsv"]]))
+        if len(pend) > 1:
+            self.ctx.probe("evals_back_to_back")
+        return [self._judge(oid, o, prep, old) for oid, o, prep, old in pend]
 
     def op_infer(self, op):
         o = self.objs.get(op["id"])
